@@ -294,17 +294,111 @@ func genC06slp(g *gen) {
 		for i, b := range op.pat {
 			pat[i] = hexBig(big.NewInt(int64(b)))
 		}
-		for r := 0; r < reps; r++ {
+		// r%3 = 0: fully random; 1: many boundary coordinates (zero sub-coordinates, 1, -1 …); 2: limb-level boundaries —
+		// consecutive coordinates (the A0, A1 of every E2) equal / differing only in the low Montgomery limbs / one apart,
+		// Montgomery representations with 0, 1, 2^w−1 limbs (carry and borrow chains of the assembly kernels)
+		for r := 0; r < reps+(reps+1)/2; r++ {
 			var coords []string
 			for _, n := range sizes {
-				// r = 0: fully random; r = 1: many boundary coordinates (zero sub-coordinates, 1, -1 …)
+				if r%3 == 2 {
+					coords = append(coords, slpLimbCoords(g, op.pkg, mod, n)...)
+					continue
+				}
 				for k := 0; k < n; k++ {
-					coords = append(coords, hexBig(slpValue(g, mod, r%2 == 1 && g.rng.intn(3) > 0)))
+					coords = append(coords, hexBig(slpValue(g, mod, r%3 == 1 && g.rng.intn(3) > 0)))
 				}
 			}
 			g.emit("C06slp %s %s %s %s", op.pkg, op.def, strings.Join(pat, ","), join(coords))
 		}
 	}
+}
+
+// word size and number of words of the base-field Element of a package
+func slpWords(pkg string) (w, limbs int) {
+	et := slpTypes[pkg]["Element"]
+	return et.Elem().Bits(), et.Len()
+}
+
+// an integer m < q whose words are 0, 1, 2^w−1, 2^w−2 or random (m is the Montgomery representation of the value returned)
+func slpMontBoundary(g *gen, q *big.Int, w, limbs int) *big.Int {
+	m := new(big.Int)
+	if g.rng.intn(6) == 0 { // just below the modulus
+		return m.Sub(q, big.NewInt(int64(1+g.rng.intn(3))))
+	}
+	max := new(big.Int).Sub(new(big.Int).Lsh(big.NewInt(1), uint(w)), big.NewInt(1))
+	for i := 0; i < limbs; i++ {
+		var l *big.Int
+		switch g.rng.intn(6) {
+		case 0, 1:
+			l = new(big.Int)
+		case 2:
+			l = big.NewInt(1)
+		case 3:
+			l = new(big.Int).Set(max)
+		case 4:
+			l = new(big.Int).Sub(max, big.NewInt(1))
+		default:
+			l = g.rng.bigBits(w)
+		}
+		m.Or(m, l.Lsh(l, uint(i*w)))
+	}
+	for m.Cmp(q) >= 0 { // clear the top bits until m < q
+		m.SetBit(m, m.BitLen()-1, 0)
+	}
+	return m
+}
+
+// n coordinates, generated in consecutive pairs (a0, a1) related at the limb level
+func slpLimbCoords(g *gen, pkg string, q *big.Int, n int) []string {
+	w, limbs := slpWords(pkg)
+	R := new(big.Int).Lsh(big.NewInt(1), uint(w*limbs))
+	rinv := new(big.Int).ModInverse(R, q)
+	fromMont := func(m *big.Int) *big.Int { v := new(big.Int).Mul(m, rinv); return v.Mod(v, q) }
+	out := make([]string, 0, n)
+	for len(out) < n {
+		var a0, a1 *big.Int
+		if g.rng.coin() {
+			a1 = g.rng.bigBelow(q)
+		} else {
+			a1 = fromMont(slpMontBoundary(g, q, w, limbs))
+		}
+		switch g.rng.intn(5) {
+		case 0:
+			a0 = new(big.Int).Set(a1)
+		case 1, 2: // Montgomery representations differ by d, |d| < 2^(w·(limbs−1)): the top limb of the difference is 0 or −1
+			var d *big.Int
+			switch g.rng.intn(5) {
+			case 0:
+				d = big.NewInt(1)
+			case 1:
+				d = new(big.Int).Lsh(big.NewInt(1), uint(w))
+			case 2:
+				d = new(big.Int).Sub(new(big.Int).Lsh(big.NewInt(1), uint(w)), big.NewInt(1))
+			case 3:
+				d = new(big.Int).Sub(new(big.Int).Lsh(big.NewInt(1), uint(w*(limbs-1))), big.NewInt(1))
+			default:
+				d = g.rng.bigBits(1 + g.rng.intn(w*(limbs-1)+1))
+			}
+			if g.rng.coin() {
+				d.Neg(d)
+			}
+			a0 = new(big.Int).Add(a1, fromMont(new(big.Int).Mod(d, q)))
+			a0.Mod(a0, q)
+		case 3:
+			a0 = fromMont(slpMontBoundary(g, q, w, limbs))
+		default: // one apart as field elements
+			a0 = new(big.Int).Add(a1, big.NewInt(int64(1-2*g.rng.intn(2))))
+			a0.Mod(a0, q)
+		}
+		if g.rng.coin() {
+			a0, a1 = a1, a0
+		}
+		out = append(out, hexBig(a0))
+		if len(out) < n {
+			out = append(out, hexBig(a1))
+		}
+	}
+	return out
 }
 
 var slpMods = map[string]*big.Int{}
